@@ -50,6 +50,69 @@ bool Interp::exec_coll(Interp &I, const Stmt &s)
         });
         return true;
     }
+    if (s.op == "map")
+    {
+        // map fn=<spec> <tsd> [broadcast ts...]
+        WiredFn f = wired_fn_for(s.kws("fn", "fn1:0"));
+        PortVal d = I.get(a.at(0));
+        Port<void> out;
+        if (a.size() == 1) out = wire<stdlib::map_>(w, f, Port<S_TSD>{w, d.ref});
+        else if (a.size() == 2) out = wire<stdlib::map_>(w, f, Port<S_TSD>{w, d.ref}, I.pi(a.at(1)));
+        else throw std::runtime_error("map arity");
+        I.env[s.dst] = PortVal{out.template as<S_TSD>().erased(), PT::Other, "tsd"};
+        return true;
+    }
+    if (s.op == "reduce")
+    {
+        WiredFn f = wired_fn_for(s.kws("fn", "sum"));
+        PortVal d = I.get(a.at(0));
+        Port<void> out;
+        if (d.shape == "tsd")
+        {
+            if (s.kw.count("zero")) out = wire<stdlib::reduce_>(w, f, Port<S_TSD>{w, d.ref}, Int{s.kwi("zero")});
+            else out = wire<stdlib::reduce_>(w, f, Port<S_TSD>{w, d.ref});
+        }
+        else if (d.shape == "tsl")
+        {
+            if (s.kw.count("zero")) out = wire<stdlib::reduce_>(w, f, Port<S_TSL>{w, d.ref}, Int{s.kwi("zero")});
+            else out = wire<stdlib::reduce_>(w, f, Port<S_TSL>{w, d.ref});
+        }
+        else throw std::runtime_error("reduce shape");
+        I.env[s.dst] = PortVal{out.template as<TS<Int>>().erased(), PT::Int, "ts"};
+        return true;
+    }
+    if (s.op == "switch")
+    {
+        // switch <key> [ts...] cases=1:fn1:0,2:fn1:1 [default=fn1:2] [reload=1]
+        std::vector<stdlib::SwitchCase> cases;
+        for (const auto &ent : split(s.kws("cases", ""), ','))
+        {
+            if (ent.empty()) continue;
+            auto c = ent.find(':');
+            cases.push_back(stdlib::SwitchCase{Value{Int{std::atoll(ent.substr(0, c).c_str())}}, wired_fn_for(ent.substr(c + 1))});
+        }
+        stdlib::SwitchCases sc{.cases = cases};
+        if (s.kw.count("default")) sc.default_branch = wired_fn_for(s.kws("default"));
+        if (s.kwi("reload", 0)) sc.reload_on_ticked = true;
+        Port<void> out;
+        if (a.size() == 1) out = wire<stdlib::switch_>(w, I.pi(a.at(0)), sc);
+        else if (a.size() == 2) out = wire<stdlib::switch_>(w, I.pi(a.at(0)), sc, I.pi(a.at(1)));
+        else if (a.size() == 3) out = wire<stdlib::switch_>(w, I.pi(a.at(0)), sc, I.pi(a.at(1)), I.pi(a.at(2)));
+        else throw std::runtime_error("switch arity");
+        I.env[s.dst] = PortVal{out.template as<TS<Int>>().erased(), PT::Int, "ts"};
+        return true;
+    }
+    if (s.op == "ite")
+    {
+        // ite <cond int ts> <a> <b>    (cond != 0 selects a)
+        auto cond = wire<VToBool>(w, I.pi(a.at(0)), uid);
+        PortVal x = I.get(a.at(1)), y = I.get(a.at(2));
+        with_shape(x.shape, [&]<typename S>() {
+            auto out = wire<stdlib::if_then_else>(w, cond, Port<S>{w, x.ref}, Port<S>{w, y.ref});
+            I.env[s.dst] = PortVal{out.template as<S>().erased(), x.type, x.shape};
+        });
+        return true;
+    }
     if (s.op == "crecord")
     {
         PortVal v = I.get(a.at(0));
